@@ -35,7 +35,7 @@ func main() {
 		u := schema.ByName(univName)
 		rootAdjust(a.Gen, u)
 		switch hdr.Part {
-		case "C02", "C14W", "C15W":
+		case "C02", "C14W", "C15W", "C09W":
 			var rp e2eReplay
 			a.LoadReplay(&rp)
 			var r *schema.Resource
@@ -59,6 +59,9 @@ func main() {
 			call, reply := buildCall(a.Gen, r, m, rp.Pos, val)
 			outs, pan := w.Do(call, reply)
 			kind, detail := w.verify(a.Gen, call, reply, outs, pan)
+			if hdr.Part == "C09W" {
+				kind, detail = canonicalQuery(w)
+			}
 			fmt.Printf("%s [%s]\n", call, rp.Cfg)
 			if kind != "" {
 				fmt.Println("FAIL:", kind, detail)
@@ -130,6 +133,27 @@ func main() {
 				if kind != "" {
 					fmt.Println("FAIL:", kind, detail)
 					os.Exit(1)
+				}
+			}
+			fmt.Println("no violation")
+		case "C03W":
+			var rp idEnvReplay
+			a.LoadReplay(&rp)
+			for _, r := range u.Resources {
+				if r.Namespace != rp.Res {
+					continue
+				}
+				m := r.Method(rp.Method)
+				for _, key := range keyAlphabet(ownKeyType(r), false) {
+					if key.Dev != rp.Dev {
+						continue
+					}
+					kind, detail := checkCreatedEnvelope(NewWorld(u, DefaultConfig), a.Gen, r, m, key)
+					fmt.Printf("%s.%s created key %s\n", r.Name(), rp.Method, key)
+					if kind != "" {
+						fmt.Println("FAIL:", kind, detail)
+						os.Exit(1)
+					}
 				}
 			}
 			fmt.Println("no violation")
@@ -227,7 +251,7 @@ func main() {
 	u := schema.ByName(univName)
 	rootAdjust(a.Gen, u)
 	switch a.Part {
-	case "C02", "C14W", "C15W":
+	case "C02", "C14W", "C15W", "C09W":
 		partC02(a, rep, univName, u)
 	case "C07W":
 		partC07W(a, rep, univName, u)
@@ -235,6 +259,8 @@ func main() {
 		partC04H(a, rep, univName, u)
 	case "C06W":
 		partC06W(a, rep, univName, u)
+	case "C03W":
+		partC03W(a, rep, univName, u)
 	case "C08":
 		partC08(a, rep, univName, u)
 	case "C16":
